@@ -60,8 +60,8 @@ impl Accumulator {
     pub open spec fn cnt(&self) -> u64 { counter_of(*self) }
 //@fn crates/axmos-db/src/runtime/ops/aggregate.rs | impl Accumulator | accumulate
 //@ sub /current\s*\.add\(&value\)\s*\.map_err\(\|e\| RuntimeError::Other\(format!\("Sum error: \{\}", e\)\)\)\?/ => add_vals(&current, value)?
-//@ sub /value < &current/ => lt(value, &current)
-//@ sub /value > &current/ => gt(value, &current)
+//@ sub? /value < &current/ => lt(value, &current)
+//@ sub? /value > &current/ => gt(value, &current)
 //@ requires
 //@   old(self).cnt() < 0x7fff_ffff_ffff_ffff,
 //@ ensures
